@@ -20,7 +20,117 @@ ASSUMPTIONS = ["'identically seeded' = the same seed passed to every stochastic 
                "list(p) is not used (it calls __len__ -> all() -> reset())"]
 
 
+# ---- the nested structure changes between resets (implementation-only oracle) ---------------------------------------
+# "the same is true of every pattern nested inside it": the patterns nested at the time of the reset, not those that were
+# nested at the first one.  Re-targeting goes through the documented API (PRef.set_pattern, PDict item assignment) or
+# is done by the pattern itself (PPatternGeneratorAction swaps in a new inner pattern whenever the current one ends).
+
+def structure_change_cases(ctx):
+    from .. import common
+    common.ensure_repo_on_path()
+    import isobar as iso
+    r = ctx.rng
+    N = 9
+
+    def spec_src():
+        k = r.random()
+        if k < 0.4:
+            return ("series", r.randint(-9, 9), r.randint(-3, 3))
+        if k < 0.8:
+            return ("seq", [r.randint(-9, 9) for _ in range(r.randint(1, 5))], r.choice([1, 2, 10 ** 6]))
+        return ("geom", r.choice([1, 2, -1]), r.choice([2, -2, 3]))
+
+    def mk(sp):
+        if sp[0] == "series":
+            return iso.PSeries(sp[1], sp[2])
+        if sp[0] == "seq":
+            return iso.PSequence(list(sp[1]), sp[2])
+        return iso.PGeom(sp[1], sp[2])
+
+    def wrap(shape, inner):
+        if shape == "direct":
+            return inner
+        if shape == "add":
+            return inner + 100
+        if shape == "stutter":
+            return iso.PStutter(inner, 2)
+        if shape == "seqitem":
+            return iso.PSequence([inner, -1], 4)
+        if shape == "deep":
+            return iso.PStutter(iso.PAbs(inner * 3), 2) + 1
+        raise ValueError(shape)
+
+    def pull(p, n):
+        out = []
+        for _ in range(n):
+            try:
+                out.append(next(p))
+            except StopIteration:
+                out.append("stop")
+                break
+            except Exception as ex:
+                out.append("err:" + type(ex).__name__)
+                break
+        return out
+
+    for i in range(ctx.scale(400, 20000)):
+        kind = r.choice(["ref", "ref", "dict", "gen"])
+        shape = r.choice(["direct", "add", "stutter", "seqitem", "deep"])
+        a, b = spec_src(), spec_src()
+        k1, k2, j = r.randint(0, 5), r.randint(0, 6), r.randint(0, 4)
+        reset_first = r.random() < 0.5
+        if kind == "ref":
+            ref = iso.PRef(mk(a))
+            outer = wrap(shape, ref)
+            fresh = wrap(shape, iso.PRef(mk(b)))
+
+            def retarget():
+                nb = mk(b)
+                pull(nb, j)              # the new target has already been used: reset() must rewind it too
+                ref.set_pattern(nb)
+        elif kind == "dict":
+            other = spec_src()
+            outer = iso.PDict({"x": mk(a), "y": mk(other)})
+            fresh = iso.PDict({"x": mk(b), "y": mk(other)})
+            shape = "dict"
+
+            def retarget():
+                nb = mk(b)
+                pull(nb, j)
+                outer["x"] = nb
+        else:
+            # the pattern replaces its own inner pattern whenever it ends
+            phrase = [r.randint(-9, 9) for _ in range(r.randint(1, 4))]
+            outer = wrap(shape, iso.PPatternGeneratorAction(lambda: iso.PSequence(list(phrase), 1)))
+            fresh = wrap(shape, iso.PPatternGeneratorAction(lambda: iso.PSequence(list(phrase), 1)))
+
+            def retarget():
+                pass
+        expected = pull(fresh, N)
+        pull(outer, k1)
+        if reset_first:
+            outer.reset()
+            if kind == "gen":
+                pull(outer, k1 + 2)
+        retarget()
+        outer.reset()
+        got1 = pull(outer, N)
+        pull(outer, k2)
+        outer.reset()
+        got2 = pull(outer, N)
+        case = {"kind": kind, "shape": shape, "a": a, "b": b, "k1": k1, "k2": k2, "new_target_used": j, "reset_before_change": reset_first}
+        ctx.case(("structure-change", repr(sorted(case.items()))), nontrivial=True, validated=False, sample=dict(case, after_reset=got1))
+        ctx.count("structure-change:" + kind, "structure-change-shape:" + shape)
+        if got1 != expected or got2 != expected:
+            ctx.violation("C04:structure-change:" + kind,
+                          "after the nested pattern was replaced (%s, %s) reset() gives %s then %s; a newly constructed instance gives %s"
+                          % (kind, shape, got1, got2, expected),
+                          {"suite": "c04-structure", "case": case, "after_first_reset": got1, "after_second_reset": got2,
+                           "fresh": expected, "first_failing_clause": "reset() rewinds the patterns nested at that time"})
+
+
 def run(ctx):
+    structure_change_cases(ctx)
     classes = pat_props.focus_classes()
     n_cases = ctx.scale(2500, 250000)
     scripts, meta = [], {}
